@@ -75,27 +75,12 @@ Print Assumptions C05_merge_contract_satisfiable.
 
 (* ---- sjoin as a whole ---- *)
 
-Definition contracts (mrg : merge_op) (cand : fixarr -> bbox -> list nat) (a : fixarr)
-           (rgeoms : list (option shape)) : Prop :=
-  merge_contract mrg /\ cand_contract (fa_len a) (fa_bounds a) (cand a) /\
-  array_form_contract a /\ good_right a rgeoms.
-
-Lemma rows_exact_h : forall mrg cand h ls rs lm rm a rgeoms res,
-  contracts mrg cand a rgeoms ->
-  sjoin mrg cand h ls rs lm rm a rgeoms = Some (inr res) ->
-  exists ps, pair_enum a rgeoms ps /\
-             Permutation (j_rows res) (expected_rows h (fa_len a) (List.length rgeoms) ps).
-Proof.
-  intros mrg cand h ls rs lm rm a rgeoms res [H1 [H2 [H3 H4]]].
-  now apply sjoin_rows_exact.
-Qed.
-
 (* how = inner: exactly one row per intersecting pair *)
 Theorem C05_inner : forall mrg cand ls rs lm rm a rgeoms res,
   contracts mrg cand a rgeoms ->
   sjoin mrg cand Inner ls rs lm rm a rgeoms = Some (inr res) ->
   exists ps, pair_enum a rgeoms ps /\ Permutation (j_rows res) (map both ps).
-Proof. intros mrg cand. exact (rows_exact_h mrg cand Inner). Qed.
+Proof. exact (fun mrg cand => rows_exact_h mrg cand Inner). Qed.
 Print Assumptions C05_inner.
 
 (* how = left: plus every left row without partner exactly once, right side missing *)
@@ -105,7 +90,7 @@ Theorem C05_left : forall mrg cand ls rs lm rm a rgeoms res,
   exists ps, pair_enum a rgeoms ps /\
     Permutation (j_rows res)
                 (map both ps ++ map (fun l => (Some l, None)) (unmatched_left (fa_len a) ps)).
-Proof. intros mrg cand. exact (rows_exact_h mrg cand Left). Qed.
+Proof. exact (fun mrg cand => rows_exact_h mrg cand Left). Qed.
 Print Assumptions C05_left.
 
 (* how = right: plus every right row without partner exactly once, left side missing *)
@@ -115,7 +100,7 @@ Theorem C05_right : forall mrg cand ls rs lm rm a rgeoms res,
   exists ps, pair_enum a rgeoms ps /\
     Permutation (j_rows res)
                 (map both ps ++ map (fun r => (None, Some r)) (unmatched_right (List.length rgeoms) ps)).
-Proof. intros mrg cand. exact (rows_exact_h mrg cand Right). Qed.
+Proof. exact (fun mrg cand => rows_exact_h mrg cand Right). Qed.
 Print Assumptions C05_right.
 
 (* all together: when sjoin returns a frame, its rows are, as a multiset, one row per
